@@ -2,6 +2,9 @@
 """Regenerates MANIFEST.json from the table below (kept valid at all times)."""
 import json, sys
 CLAIMED = {
+ "C20": dict(level="exploration", tech="property-based testing with an inverse oracle: a generated ground item is turned into a template by replacing sub-terms with parameters, and binding the removed values back must reproduce the item",
+   text="Up to 6 ground sub-terms of a generated fact / rule / check / policy (top-level, nested in arrays and maps, map keys, set elements, expression operands, inside closures, key scopes; shared names across alternatives) are replaced by {name} parameters; the values are bound back through set / set_lenient / set_scope on constructor-built or parsed items, or through code_with_params, a generated subset first left unbound. The bound item must equal the original (via Display -> parse and via token -> print_block_source -> parse), partial items must be refused naming only unbound parameters, unknown names are reported by strict setters only, and no conversion of a bound item may panic.",
+   note="values always have the type of the position they came from (binding e.g. a boolean to a map key is outside the generator); macro-side binding is C18's subject", ref="4 C20"),
  "C16": dict(level="exploration", tech="enumeration of a feature x declared-version grid (correctly signed crafted blocks) + property-based testing of generated tokens against a feature->version reference table (RefVersion) and the signature-version rule (RefCrypto)",
    text="One block per feature (every operator in rules and checks, every term type at depth 0-2 in every container, check kinds, scopes at every level) goes through the three builder paths and must declare the version RefVersion computes; each block is then re-declared with every version 0..=8 and signed by RefSigner: out-of-range or under-declared blocks must not reach evaluation, correctly declared ones must. Generated tokens over all key-algorithm sequences must use the signature version the rule prescribes, never decreasing, and declare RefVersion's datalog versions.",
    note="RefVersion is transcribed from the specification; the grid is enumerated completely, combinations are sampled", ref="4 C16"),
